@@ -6,6 +6,7 @@ spec/SvgRefs.tla : following references with an `active` set (termination, no se
 Every TLC terminal state is replayed: the path is printed in seven number syntaxes, parsed by svg.Parse, drawn on the
 recording canvas and compared operation by operation; arcs and shape corners are sampled and must lie on the ellipse
 the specification names; reference graphs of six kinds must terminate (watchdog) and draw each instance once.
+Pairs of instances (PairInit): two <use> of one symbol / svg / g with different attributes draw the same calls in both orders.
 """
 import os
 from vlib import MachineryError
